@@ -59,7 +59,7 @@ pub fn tape_checks(ctx: &Ctx) -> Vec<(&'static str, Box<CheckFn<'_>>)> {
 	vec![(
 		"values",
 		Box::new(move |g: &mut Gen, stats: &mut Stats| {
-			let e = *g.pick(&entries);
+			let e = pick_entry(g, &entries);
 			let mut cfg = GenCfg {
 				budget: if big { 70_000 } else { 50_000 },
 				allow_skipped_variants: true,
